@@ -25,6 +25,12 @@ STRUCTS = [
     dict(id="zerodef", rows=[("alive", [1, 2, 3, 4], None, True), ("ca", [1], None, True), ("cd", [4], None, True, "default0")]),
     # a characteristic that includes a compartment twice, directly and through a nested characteristic: tot = ca + ab = 2 ca + cb
     dict(id="twice", rows=[("ab", [1, 2], None, False), ("tot", [1, 1, 2], None, True, "components=ca, ab"), ("ca", [1], None, True), ("cc", [3], None, True), ("cd", [4], None, True)]),
+    # a nested characteristic reached through two branches: tot = risk + ever, both of which contain ab = ca + cb (tot = 2 ca + 2 cb + cc + cd)
+    dict(id="diamond", fixunused=True, rows=[("ab", [1, 2], None, False), ("risk", [1, 2, 3], None, False, "components=ab, cc"), ("ever", [1, 2, 4], None, False, "components=ab, cd"),
+                                             ("tot", [1, 2, 3, 1, 2, 4], None, True, "components=risk, ever"), ("ca", [1], None, True), ("cc", [3], None, True), ("cd", [4], None, True)]),
+    # an over-determined databook that is inconsistent by a hair (3e-4 on values of 40 .. 100): no assignment meets every quantity to 1e-6
+    dict(id="overtiny", rows=[("ab", [1, 2], None, True, "dom=100"), ("ca", [1], None, True, "dom=60"), ("cb", [2], None, True, "dom=40,400003/10000,399997/10000"),
+                              ("cc", [3], None, True, "dom=0,5"), ("cd", [4], None, True, "dom=0")]),
     dict(id="fracunused", rows=[("everybody", [1, 2, 3, 4], None, False), ("share", [1], "everybody", True), ("cb", [2], None, True), ("cc", [3], None, True), ("cd", [4], None, True)]),
 ]
 
@@ -38,7 +44,7 @@ def worlds_module(thorough):
     out = []
     for s in STRUCTS:
         names = [r[0] for r in s["rows"]]
-        dom = ["{%s}" % ",".join(rat(v) for v in ([0] if len(r) > 4 and r[4] == "default0" else FRAC if r[2] else (NUMT if thorough and len(s["rows"]) <= 4 else NUM))) for r in s["rows"]]
+        dom = ["{%s}" % ",".join(rat(v) for v in ([Fr(v) for v in r[4][4:].split(",")] if len(r) > 4 and r[4].startswith("dom=") else [0] if (len(r) > 4 and r[4] == "default0") or (s.get("fixunused") and not r[3]) else FRAC if r[2] else (NUMT if thorough and len(s["rows"]) <= 4 else NUM))) for r in s["rows"]]
         out.append('[ id |-> "%s", ncomp |-> 4, members |-> <<%s>>, denom |-> <<%s>>, used |-> <<%s>>, dom |-> <<%s>> ]' % (
             s["id"], ",".join("<<%s>>" % ",".join(map(str, r[1])) for r in s["rows"]), ",".join(str(names.index(r[2]) + 1 if r[2] else 0) for r in s["rows"]),
             ",".join("TRUE" if r[3] else "FALSE" for r in s["rows"]), ",".join(dom)))
